@@ -59,7 +59,12 @@ def write_cif(atoms, label_differs=False) -> str:
     for a in atoms:
         label_asym = a["chain"]
         if label_differs and a["het"]:
-            label_asym = {"A": "C", "B": "D"}.get(a["chain"], "Z")
+            # label_asym_id of a hetero group is whatever the depositor's software assigned: it varies from
+            # entry to entry and may coincide with the author chain of a polymer in another entry
+            k = (len(atoms) + atoms[0]["serial"] + "ABCDEFGH".find(a["chain"])) % 5
+            label_asym = ["B", "C", "D", "E", "A"][k]
+            if label_asym == a["chain"]:
+                label_asym = "Z"
         ch = a["charge"]
         fc = "?" if not ch else (ch[0] if ch[1] == "+" else "-" + ch[0])
         rows.append(
